@@ -118,8 +118,9 @@ func runFtpDataConn(svc services.Servicer, sp Spec, idx int) (ob ConnObs, gone b
 		if mode == "passive" {
 			send("PASV")
 			if p := passivePort(reply()); p > 0 && peer != "absent" {
-				if dc, err := net.DialTimeout("tcp", fmt.Sprintf("127.0.0.1:%d", p), time.Second); err == nil {
-					waitAccepted()
+				before := accepting()
+				if dc, err := net.DialTimeout("tcp", fmt.Sprintf("127.0.0.1:%d", p), 5*time.Second); err == nil {
+					waitAccepted(before)
 					if peer == "knock" {
 						dc.Close()
 					} else {
